@@ -95,7 +95,12 @@ func c05Format(w *rt.W, id uu.ID, slow bool) {
 				fail("format-verb", "Sprintf "+verb, s, wantV)
 			}
 		}
-		w.Eval(49)
+		for _, verb := range wideVerbs {
+			if s := fmt.Sprintf(verb, id); s != want {
+				fail("format-verb", "Sprintf "+verb, s, want)
+			}
+		}
+		w.Eval(49 + 208)
 		// existing content that ends like the URN scheme must not change what is appended
 		for _, pre := range []string{"urn:uuid:", "see urn:uuid:", "URN:UUID:", "urn:uuid"} {
 			if b, err := uu.DefaultFormatter([]byte(pre), id, uu.FormatURN); err != nil || string(b) != pre+wantURN {
